@@ -229,6 +229,8 @@ def status_exists_provenance(ck: Checker, rule: str) -> None:
                 return True
             if nm in ("set", "list", "frozenset", "tuple") and e.args:
                 return from_query(n, e.args[0], depth)
+        if isinstance(e, ast.BinOp) and isinstance(e.op, ast.BitAnd):
+            return True  # same as .intersection(...): a subset of the ids asked about, filtered by the other operand
         if isinstance(e, ast.Name) and depth > 0:
             defs = reaching_defs(g, n.id, e.id)
             if not defs:
@@ -243,9 +245,28 @@ def status_exists_provenance(ck: Checker, rule: str) -> None:
             return all(oks)
         return False
 
+    # the `exists` accumulator, whatever it is called: what the first field of the returned StatusResult ranges over
+    ex_names = set()
+    for r in walk_own(fn.node):
+        if isinstance(r, ast.Call) and call_name(r) == "StatusResult":
+            a0 = get_arg(r, None, "ok", 0) if get_arg(r, None, "ok", 0) is not None else get_arg(r, None, "exists", 0)
+            if isinstance(a0, (ast.SetComp, ast.ListComp, ast.GeneratorExp)) and isinstance(a0.generators[0].iter, ast.Name):
+                ex_names.add(a0.generators[0].iter.id)
+            elif isinstance(a0, ast.Name):
+                for b in collection_builds(g, fn.node, a0.id):
+                    if isinstance(b.src, ast.Name):
+                        ex_names.add(b.src.id)
+    if not ex_names:
+        ex_names = {"exists"}
     for n in g.nodes.values():
+        a = n.ast
+        if n.kind == "stmt" and isinstance(a, ast.AugAssign) and isinstance(a.op, ast.BitOr) and isinstance(a.target, ast.Name) and a.target.id in ex_names:
+            n_u += 1
+            ck.require(from_query(n, a.value), rule, fn, n, "what is added to `exists` is the answer of a store / index query",
+                       f"`{norm(a)[:70]}` adds ids to the 'exists' answer that are not the result of querying the store or the validated index for them: a file lost from the store is reported as existing and never re-sent",
+                       construct=f"{norm(a)[:60]} / provenance")
         for c in calls_at(n):
-            if is_method_call(c, "update", "add") and isinstance(c.func.value, ast.Name) and c.func.value.id == "exists" and c.args:
+            if is_method_call(c, "update", "add") and isinstance(c.func.value, ast.Name) and c.func.value.id in ex_names and c.args:
                 n_u += 1
                 ck.require(from_query(n, c.args[0]), rule, fn, n, "what is added to `exists` is the answer of a store / index query",
                            f"`{norm(c)[:70]}` adds ids to the 'exists' answer that are not the result of querying the store or the validated index for them (e.g. 'all files of a directory whose .dir object is present'): a file lost from the store is reported as existing and never re-sent",
@@ -253,7 +274,7 @@ def status_exists_provenance(ck: Checker, rule: str) -> None:
         a = n.ast
         if n.kind == "stmt" and isinstance(a, (ast.Assign, ast.AnnAssign)):
             tg = a.targets[0] if isinstance(a, ast.Assign) else a.target
-            if isinstance(tg, ast.Name) and tg.id == "exists" and a.value is not None and not (isinstance(a.value, ast.Call) and call_name(a.value) == "set" and not a.value.args):
+            if isinstance(tg, ast.Name) and tg.id in ex_names and a.value is not None and not (isinstance(a.value, ast.Call) and call_name(a.value) == "set" and not a.value.args):
                 n_u += 1
                 ck.require(from_query(n, a.value), rule, fn, n, "`exists` is assigned the answer of a store / index query", f"`{norm(a)[:70]}` is not the result of a store / index query", construct=f"{norm(a)[:60]} / provenance")
     ck.floor(rule, n_u, 2, "contributions to the `exists` answer in status()")
@@ -279,11 +300,18 @@ def hash_file_digest_sources(ck: Checker, rule: str) -> None:
     fn = ck.prog.func("hashfile.hash", "_hash_file")
     g = ck.cfg(fn)
     n_r = 0
+    sources = []  # (node, digest expression): one per return, or per reaching definition of a single-exit result variable
     for r in g.nodes.values():
         if not (r.kind == "stmt" and isinstance(r.ast, ast.Return) and isinstance(r.ast.value, ast.Tuple) and r.ast.value.elts):
             continue
-        n_r += 1
         d = r.ast.value.elts[0]
+        defs = [x for x in reaching_defs(g, r.id, d.id) if isinstance(x.ast, (ast.Assign, ast.AnnAssign)) and getattr(x.ast, "value", None) is not None] if isinstance(d, ast.Name) else []
+        if len(defs) > 1:
+            sources += [(x, x.ast.value) for x in defs]
+        else:
+            sources.append((r, d))
+    for r, d in sources:
+        n_r += 1
         ok = False
         for alt in [d] + value_alts(g, r, d, depth=3) + expand1(ck.prog, fn, d, levels=2):
             for c in ast.walk(alt):
